@@ -195,13 +195,40 @@ class Result:
         if other.exhaustive is not None:
             self.exhaustive = other.exhaustive if self.exhaustive is None else (self.exhaustive and other.exhaustive)
 
+# optional line coverage of the implementation (tools/coverage.sh): which lines of /repo's fxpmath the
+# correspondence runs execute.  sys.monitoring, each location reported once.
+_cov = None
+def _cov_start():
+    global _cov
+    d = os.environ.get('VERIF_COV_DIR')
+    if not d or _cov is not None or not hasattr(sys, 'monitoring'): return
+    _cov = set(); root = os.path.abspath(REPO) + os.sep + 'fxpmath' + os.sep
+    mon = sys.monitoring; tid = 3
+    try: mon.use_tool_id(tid, 'fxpverif-cov')
+    except Exception: return
+    def on_line(code, line):
+        fn = code.co_filename
+        if fn.startswith(root): _cov.add((fn[len(root):], line))
+        return mon.DISABLE
+    mon.register_callback(tid, mon.events.LINE, on_line)
+    mon.set_events(tid, mon.events.LINE)
+def _cov_dump(tag):
+    d = os.environ.get('VERIF_COV_DIR')
+    if d and _cov is not None:
+        os.makedirs(d, exist_ok=True)
+        with open(os.path.join(d, '%s-%d.json' % (tag, os.getpid())), 'w') as f: json.dump(sorted(_cov), f)
+
 def _shard_entry(args):
     modname, funcname, shard, nshards, seed, tier, extra = args
     try:
         import importlib
+        _cov_start()
         mod = importlib.import_module(modname)
         rng = random.Random(seed * 1000003 + shard * 7919 + 17)
-        return getattr(mod, funcname)(shard, nshards, rng, tier, extra)
+        try:
+            return getattr(mod, funcname)(shard, nshards, rng, tier, extra)
+        finally:
+            _cov_dump('%s-%d' % (modname, shard))
     except Exception:
         r = Result()
         r.fail({'shard': shard}, 'harness exception', got=traceback.format_exc())
